@@ -1,5 +1,6 @@
 pub mod canon;
 pub mod debugparse;
+pub mod derived;
 pub mod doc;
 pub mod dsl;
 pub mod scenario;
